@@ -20,6 +20,7 @@ structure Net where
   constsWait : List Nat                -- per party: outstanding replies of its consts task (the task reports back when the last one arrived)
   fails    : Nat                       -- how many RPC failures the environment may still inject
   failed   : Option (Nat × Nat)        -- (caller, kind) of the injected failure; kind 0 = validate, 1 = run, 2 = consts
+  schedOk  : List Nat                  -- per party: number of `Ok` replies to its schedule call
 deriving DecidableEq, Repr
 
 structure Setup where
@@ -45,8 +46,11 @@ def initNetF (su : Setup) (fails : Nat) : Net :=
   { actors := List.replicate su.n {}, busy := List.replicate su.n false,
     flight := (List.range su.n).foldl (fun acc p => insertSorted (p, .schedule (polOf su p)) acc) [],
     waitVal := 0, waitRun := 0, errors := 0, outputs := List.replicate su.n 0, executing := List.replicate su.n false,
-    constsWait := List.replicate su.n 0, fails := fails, failed := none }
+    constsWait := List.replicate su.n 0, fails := fails, failed := none, schedOk := List.replicate su.n 0 }
 def initNet (su : Setup) : Net := initNetF su 0
+/-- party `bad` (a follower) schedules a policy with a DIFFERENT program (hash 43 instead of 42); everybody else as in `initNet`. -/
+def initNetBad (su : Setup) (bad : Nat) : Net :=
+  { initNetF su 0 with flight := (List.range su.n).foldl (fun acc p => insertSorted (p, .schedule (if p = bad then { polOf su p with hash := 43 } else polOf su p)) acc) [] }
 
 def isContinuation : Cmd → Bool
   | .leaderValidated _ | .leaderPermit | .leaderRunDone _ | .compiled _ => true
@@ -66,6 +70,7 @@ def applyEff (su : Setup) (p : Nat) (net : Net) : Eff → Net
   | .reply "run" ok _ =>
     if ok then (if net.waitRun = 1 then { net with waitRun := 0, flight := insertSorted (su.leader, .leaderRunDone true) net.flight } else { net with waitRun := net.waitRun - 1 })
     else { net with errors := net.errors + 1, flight := insertSorted (su.leader, .leaderRunDone false) net.flight }
+  | .reply "schedule" ok _ => if ok then { net with schedOk := net.schedOk.set p (net.schedOk.getD p 0 + 1) } else { net with errors := net.errors + 1 }
   | .reply _ ok _ => if ok then net else { net with errors := net.errors + 1 }
   | .replyDropped _ => { net with errors := net.errors + 1 }
   | .selfSend "Run" => { net with flight := insertSorted (p, .run false) net.flight }
@@ -136,7 +141,7 @@ def explore (cfg : Cfg) (su : Setup) : Nat → List Net → List Net → List Ne
 def terminal (net : Net) : Bool := net.flight.isEmpty
 def good (su : Setup) (net : Net) : Bool :=
   net.errors == 0 && net.actors.all (·.stopped) && (List.range su.n).all (fun p => net.outputs.getD p 0 == (if su.outs.getD p false then 1 else 0))
-  && net.actors.all (fun s => !s.permit)
+  && net.actors.all (fun s => !s.permit) && (List.range su.n).all (fun p => net.schedOk.getD p 0 == 1)   -- every schedule call was answered Ok, once
 
 /-- what C17 asks of a terminal state after an injected RPC failure: the CALLER's policy has ended, its permit is back, and it was
     notified if it has a destination (for a failed `validate` the error reply of its own schedule call is the notification). -/
